@@ -210,7 +210,7 @@ def filter_cases(m: str, full: bool) -> Iterator[dict[str, Any]]:
             for construct, ctx in plural_constructs:
                 for count in (1, 2):
                     for form in forms:
-                        for sup in SUPPLIES:
+                        for sup in ("kw", "outer"):
                             yield _case("filter", construct, form, s, p, count, ctx, sup, False)
 
 
@@ -236,7 +236,7 @@ def tag_cases(b: str, full: bool) -> Iterator[dict[str, Any]]:
         o = TAG_OTHERS[1]
         for s, p in ((b, o), (o, b)):
             for count in (1, 2):
-                for sup in TAG_SUPPLIES:
+                for sup in ("kw", "outer", "shadow"):
                     yield _case("tag", "translate", "lit", s, p, count, None, sup, False)
 
 
@@ -398,9 +398,21 @@ class C26(Check):
             "filter_messages": len(messages("filter", n)),
             "tag_bodies": len(messages("tag", n)),
             "counts": ["absent"] + COUNTS,
-            "full_matrix": "messages of <= 3 tokens: 5 filters x {literal,variable} x supplies x counts x "
-                           "{singular,plural role} x 2 partner texts x autoescape {off; on for counts 1,2 and all "
-                           "no-plural forms}; tag: context x counts x supplies x autoescape likewise",
+            "full_matrix_filters": (
+                "messages of <= 3 tokens: no-plural forms t, t+context, gettext, pgettext x {literal, variable} x "
+                "autoescape {off,on} x supplies {missing,kw,outer,mixed} (only 'none' when the message has no "
+                "placeholder; then also t/gettext under StrictUndefined); t with count {0,2} and no plural; pairs with "
+                "partner 'a' in both roles x {t, t+context, ngettext, npgettext} x every count (autoescape on for "
+                "counts 1,2) x {literal, variable} x supplies; pairs with partner '(%(w)s' x counts {1,2} x "
+                "{literal, variable} x supplies {kw,outer}"
+            ),
+            "full_matrix_tag": (
+                "bodies of <= 3 tokens: no plural block x context {absent,'ctx'} x count {absent,0,2} x autoescape "
+                "{off,on} x supplies {missing,kw,outer,mixed,shadow} (StrictUndefined when there is no {{ }} "
+                "placeholder); pairs with partner 'a' in both roles x every count (context absent, autoescape off) and "
+                "counts {absent,1,2} for the other context/autoescape combinations x supplies; partner '({{ w }}' x "
+                "counts {1,2} x supplies {kw,outer,shadow}"
+            ),
         }
         if n > N_FULL:
             b["reduced_matrix_4_tokens"] = ("no-plural forms in full; pairs only with partner 'a', variable form "
@@ -419,7 +431,8 @@ class C26(Check):
         res = Result()
         msgs = messages(kind, max_tokens(tier))
         gen = filter_cases if kind == "filter" else tag_cases
-        for i in range(r, len(msgs), n):
+        sampled: set[Any] = set()
+        for i in range(len(msgs) - 1 - r, -1, -n):  # longest messages first (only affects which samples are kept)
             m, ntok = msgs[i]
             res.count(f"{kind}_messages")
             if kind == "tag" and ref.tag_ws_ambiguous(m):
@@ -432,7 +445,9 @@ class C26(Check):
                     continue
                 label, viol, nontrivial = check_case(case)
                 sample = None
-                if len(res.samples) < Result.MAX_SAMPLES and nontrivial is not None and i >= 200 and viol is None:
+                if (len(res.samples) < Result.MAX_SAMPLES and nontrivial is not None and viol is None
+                        and label not in sampled and (case["s"], case["p"]) not in sampled):
+                    sampled.update((label, (case["s"], case["p"])))
                     src, data, _ = program(case)
                     sample = {"template": src, "data": data, "autoescape": case["autoescape"], "outcome": label}
                 res.case(nontrivial=nontrivial, outcome=label, sample=sample)
